@@ -14,7 +14,11 @@ Three executable contracts around REAL armi code (nothing is re-implemented; the
      burnSteps[c] entries; values equal the independently expanded input
 2. schedule.* / who.* / state.* / coupling.*  the REAL Operator on the smallest test reactor, with recording dummy
    interfaces, for generated (cycle history, restart point, stack, deferral, halt, coupling) configurations: the
-   recorded trace (interface, hook, args, r.p.cycle, r.p.timeNode, coupledIteration) equals the prescribed one
+   recorded trace (interface, hook, args, r.p.cycle, r.p.timeNode, coupledIteration) equals the prescribed one.
+   The restart point reaches the main loop in three ways: "preset" (r.p.cycle/timeNode set before operate()),
+   "bol" (a recording interface early in the stack sets them INSIDE its interactBOL, as armi's MainInterface does;
+   ids schedule.restart-set-at-BOL.*), and "main" (the real MainInterface + DatabaseInterface restarting from the
+   database written by a previous full run of the same history; ids schedule.restart-main-db.*)
 3. stack.*  addInterface / removeInterface / getInterface against a list model of the documented rules
 """
 import json
@@ -28,6 +32,8 @@ from common import Bounded, armi_ready
 
 armi_ready()
 from armi import runLog, utils
+from armi.bookkeeping.db.databaseInterface import DatabaseInterface
+from armi.bookkeeping.mainInterface import MainInterface
 from armi.interfaces import Interface, TightCoupler
 from armi.operators.operator import Operator
 from armi.testing import loadTestReactor
@@ -39,7 +45,7 @@ B = Bounded(
     "scripted TightCouplers; tightCoupling on/off, max iters 1..4, exempt cycles); (3) seeded add/remove/get sequences; "
     "distinct = distinct configuration",
     "(1) 780 vectors exhaustive + 150/1500 larger (<= 10 cycles x 0..12 steps), 300/3000 histories; "
-    "(2) quick: 84 vectors x (2 runs from (0,0) + 3 at random restart points), one seeded stack each; thorough: 84 vectors x ALL restart points x 8 stacks (12 from (0,0)); "
+    "(2) quick: 84 vectors x (2 runs from (0,0) + 3 at random restart points), one seeded stack each; thorough: 84 vectors x ALL restart points x 8 stacks (12 from (0,0)); restart set inside a BOL hook: ALL 570 restart points of the 84 vectors x 1/4 stacks; real MainInterface+DB restart: all restart points of 6 seeded histories (quick) / all 84 (thorough); "
     "(3) 150/1500 sequences of <= 6/10 stack operations",
 )
 THOROUGH = B.thorough()
@@ -59,7 +65,7 @@ def _violation(vid, what, inp):
 B.violation = _violation
 STATS = {"runs": 0, "runs_with_coupling": 0, "runs_with_halt": 0, "runs_restart": 0, "runs_deferred": 0, "events_compared": 0,
          "calls_compared": 0, "max_coupled_iterations_hit": 0, "early_convergence": 0, "skipped_outside_quantifier": 0,
-         "stack_ops": 0, "histories_simple": 0, "histories_detailed": 0}
+         "stack_ops": 0, "runs_restart_set_at_BOL": 0, "runs_restart_main_db": 0, "histories_simple": 0, "histories_detailed": 0}
 
 SIMPLE_OFF = {"cycles": []}
 DETAILED_OFF = {"burnSteps": None, "cycleLength": None, "cycleLengths": None, "availabilityFactor": None, "availabilityFactors": None,
@@ -341,6 +347,7 @@ class Rec(Interface):
         self.pattern = pattern  # {(cycle, node): [converged at iteration 0, 1, ...]} for coupler interfaces
         self.value = 0.0
         self.prev_ok = True
+        self.restart_to = None
 
     def _rec(self, kind, *args):
         r = self.r
@@ -348,6 +355,9 @@ class Rec(Interface):
                          float(r.p.stepLength or 0.0), float(r.core.p.power or 0.0)))
 
     def interactBOL(self):
+        if self.restart_to is not None:
+            # a restart is established DURING the beginning-of-life event (cf. MainInterface._activateDBPrepRestart)
+            self.r.p.cycle, self.r.p.timeNode = self.restart_to
         self._rec("BOL")
 
     def interactBOC(self, cycle=None):
@@ -447,7 +457,12 @@ def expected_events(conf, order):
             out = [x for x in out if not by[x]["reverse"]] + [x for x in reversed(out) if by[x]["reverse"]]
         return out
 
-    ev = [("BOL", (), (sc, sn), None, active("BOL", sc))]
+    ev = []
+    if conf.get("restartVia") == "main" and sn == 0 and sc > 0:
+        # documented MainInterface behaviour: the DB holds the last node of the previous cycle BEFORE its EOC
+        # interactions, so they are performed (from inside main's BOL hook) before the run proceeds
+        ev.append(("EOC", (sc - 1,), (sc - 1, bs[sc - 1]), None, active("EOC", sc - 1)))
+    ev.append(("BOL", (), (sc, sn), None, active("BOL", sc)))
     cyc, node = sc, sn
     halted = None
     for c in range(sc, len(bs)):
@@ -497,10 +512,21 @@ def run_operator(base_cs, r, conf):
                 "tightCoupling": conf["tightCoupling"], "tightCouplingMaxNumIters": conf["maxIters"],
                 "cyclesSkipTightCouplingInteraction": list(conf["skipCycles"]),
                 "deferredInterfaceNames": list(conf["deferred"]), "deferredInterfacesCycle": conf["deferredCycle"]})
+    via = conf.get("restartVia", "preset")
+    real = bool(conf.get("real")) or via == "main"
+    rid = {"preset": "", "bol": "restart-set-at-BOL.", "main": "restart-main-db."}[via]
+    if via == "main":
+        new.update({"loadStyle": "fromDB", "reloadDBName": first_db(base_cs, r, bs)})
     cs = base_cs.modified(newSettings=new)
+    if real:
+        _TITLE[0] += 1
+        cs.caseTitle = "c15run%d" % _TITLE[0]
     o = Operator(cs)
     o.reattach(r, cs)
-    r.p.cycle, r.p.timeNode = conf["startCycle"], conf["startNode"]  # what the restart machinery establishes before the loop
+    if via == "preset":
+        r.p.cycle, r.p.timeNode = conf["startCycle"], conf["startNode"]  # restart point already established before operate()
+    else:
+        r.p.cycle, r.p.timeNode = 0, 0  # the restart point is only established during the BOL event
     r.core.p.coupledIteration = 0
     log, order, insts = [], [], {}
     for d in conf["stack"]:
@@ -510,6 +536,8 @@ def run_operator(base_cs, r, conf):
         i = rec_class(d["name"])(r, cs, log, halt_cycle=d["halt"], pattern=pat)
         if pat is not None:
             i.coupler = TightCoupler("scripted", 1.0, conf["maxIters"])
+        if d["name"] == "restarter":
+            i.restart_to = (conf["startCycle"], conf["startNode"])
         o.addInterface(i, index=d["index"], reverseAtEOL=d["reverse"], enabled=d["enabled"], bolForce=d["bolForce"])
         if d["index"] is None:
             order.append(d["name"])
@@ -519,14 +547,33 @@ def run_operator(base_cs, r, conf):
     if not B.check([i.name for i in o.getInterfaces()] == order, "stack.add.order", "addInterface(index=...) did not produce the documented stack order",
                    dict(inp, got=[i.name for i in o.getInterfaces()], want=order)):
         return
+    dbi = None
+    if real:
+        # armi's own first and last interfaces: main (first, reversed at EOL) and the database (last)
+        o.addInterface(MainInterface(r, cs), index=0, reverseAtEOL=True)
+        dbi = DatabaseInterface(r, cs)
+        o.addInterface(dbi)
     want, halted = expected_events(conf, order)
     try:
         o.operate()
     except Exception as e:  # noqa: BLE001
-        B.violation("run.unexpected-error", "Operator.operate() raised %s: %s" % (type(e).__name__, str(e)[:160]), inp)
+        B.violation("schedule." + rid + "error" if rid else "run.unexpected-error", "Operator.operate() raised %s: %s" % (type(e).__name__, str(e)[:160]), inp)
         return
     finally:
+        if dbi is not None:
+            try:
+                if dbi._db is not None and dbi._db.isOpen():
+                    dbi._db.close(True)
+            except Exception:  # noqa: BLE001
+                pass
+            if via == "main":
+                try:
+                    os.remove(cs.caseTitle + ".h5")
+                except OSError:
+                    pass
         o.removeAllInterfaces()
+        if o.r is not None and o.r is not r:
+            o.r.o = None  # the DB restart loads a fresh reactor and re-attaches the operator to it
         r.o = None
     got = group(log)
     if halted is not None:
@@ -540,7 +587,13 @@ def run_operator(base_cs, r, conf):
             i += 1
         e = wk[i] if i < len(wk) else None
         g = gk[i] if i < len(gk) else None
-        if e is None or (g is not None and e in gk[i:] and g not in wk[i:]):
+        boc = [a for k, a in gk if k == "BOC"]
+        nodes = [a for k, a in gk if k == "EveryNode"]
+        if rid and boc and boc[0][0] != conf["startCycle"]:
+            vid, what = "schedule." + rid + "wrong-start-cycle", "the restart point is set during the BOL event, but the cycle loop does not begin at the start cycle"
+        elif rid and nodes and tuple(nodes[0]) != (conf["startCycle"], conf["startNode"]) and not (halted == conf["startCycle"]):
+            vid, what = "schedule." + rid + "wrong-start-node", "the restart point is set during the BOL event, but the first node visited is not the start node"
+        elif e is None or (g is not None and e in gk[i:] and g not in wk[i:]):
             vid, what = "schedule.extra." + g[0], "the run performs an event the statement does not prescribe here"
         elif g is None or (g in wk[i:] and e not in gk[i:]):
             vid, what = "schedule.missing." + e[0], "the run skips an event the statement prescribes"
@@ -548,6 +601,8 @@ def run_operator(base_cs, r, conf):
             vid, what = "schedule.wrong-args." + e[0], "an event carries other cycle/node/iteration arguments than prescribed"
         else:
             vid, what = "schedule.order", "events happen in another order than prescribed"
+        if rid and ".restart-" not in vid:
+            vid = vid.replace("schedule.", "schedule." + rid, 1)
         B.violation(vid, what, dict(inp, at=i, expected=list(e) if e else None, got=list(g) if g else None, before=[list(x) for x in wk[max(0, i - 2):i]]))
         return
     by = {d["name"]: d for d in conf["stack"]}
@@ -583,8 +638,12 @@ def run_operator(base_cs, r, conf):
                 B.violation("who.order." + kind, "interfaces are not called in stack order (at EOL: reverse-flagged ones last, reversed)", ctx)
             continue
         for name, cyc, node, cit in calls:
-            if (cyc, node) != tuple(state):
-                B.violation("state.cycle-node." + kind, "r.p.cycle / r.p.timeNode seen inside the hook are not the current cycle and node", dict(ctx, seen=[cyc, node], want=list(state)))
+            if kind == "BOL" and via == "bol" and order.index(name) < order.index("restarter"):
+                state_here = (0, 0)  # hooks ahead of the interface that establishes the restart point
+            else:
+                state_here = tuple(state)
+            if (cyc, node) != state_here:
+                B.violation("state.cycle-node." + kind, "r.p.cycle / r.p.timeNode seen inside the hook are not the current cycle and node", dict(ctx, seen=[cyc, node], want=list(state_here)))
                 break
             if it is not None and cit != it:
                 B.violation("state.coupledIteration", "core.p.coupledIteration is not the 1-based iteration number", dict(ctx, seen=cit, want=it))
@@ -610,13 +669,35 @@ def run_operator(base_cs, r, conf):
         STATS["early_convergence"] += sum(1 for v in its.values() if v < conf["maxIters"])
 
 
-def gen_conf(rng, bs, sc, sn):
-    coupling = rng.random() < 0.6
+_TITLE = [0]
+_FIRST = {}
+
+
+def first_db(base_cs, r, bs):
+    """Database of a complete run (real MainInterface + DatabaseInterface) of the history `bs`, written once per history."""
+    key = tuple(bs)
+    if key not in _FIRST or not os.path.exists(_FIRST[key]):
+        conf = {"burnSteps": list(bs), "startCycle": 0, "startNode": 0, "tightCoupling": False, "maxIters": 1, "skipCycles": [],
+                "stack": [{"name": "base", "enabled": True, "bolForce": False, "reverse": False, "index": None, "halt": None, "pattern": None}],
+                "deferred": [], "deferredCycle": 0, "restartVia": "preset", "real": True}
+        B.case(("run", json.dumps(conf, sort_keys=True)))
+        run_operator(base_cs, r, conf)  # the full run is itself held against the schedule oracle
+        _FIRST[key] = os.path.abspath("c15run%d.h5" % _TITLE[0])
+    return _FIRST[key]
+
+
+def gen_conf(rng, bs, sc, sn, via="preset"):
+    coupling = rng.random() < 0.6 and via != "main"  # with the real DatabaseInterface the dummy "database" cannot be stacked
     max_iters = rng.randint(1, 4)
     skip = sorted(c for c in range(len(bs)) if rng.random() < 0.25) if coupling else []
     stack, deferred, dcycle = gen_stack(rng, bs, sc, coupling, max_iters)
+    if via == "bol":
+        stack.insert(0, {"name": "restarter", "enabled": True, "bolForce": False, "reverse": rng.random() < 0.3, "index": None, "halt": None, "pattern": None})
+        for d in stack[1:]:
+            if d["index"] is not None:
+                d["index"] = min(d["index"] + rng.randint(0, 1), stack.index(d))  # sometimes ahead of the restarter, mostly behind it
     return {"burnSteps": list(bs), "startCycle": sc, "startNode": sn, "tightCoupling": coupling, "maxIters": max_iters, "skipCycles": skip,
-            "stack": stack, "deferred": deferred, "deferredCycle": dcycle}
+            "stack": stack, "deferred": deferred, "deferredCycle": dcycle, "restartVia": via}
 
 
 def part_operator(base_cs, r):
@@ -640,6 +721,26 @@ def part_operator(base_cs, r):
                 STATS["runs_deferred"] += 1
             B.case(("run", json.dumps(conf, sort_keys=True)), sample=None)
             run_operator(base_cs, r, conf)
+    # restart point established DURING the BOL event by an early recording interface: every restart point of every history
+    for bs in out:
+        for sc in range(len(bs)):
+            for sn in range(bs[sc] + 1):
+                for _k in range(4 if THOROUGH else 1):
+                    conf = gen_conf(rng, bs, sc, sn, via="bol")
+                    STATS["runs_restart_set_at_BOL"] += 1
+                    B.case(("run", json.dumps(conf, sort_keys=True)), sample=None)
+                    run_operator(base_cs, r, conf)
+    # the real MainInterface restarting from the database of a previous full run (loadStyle fromDB, startCycle/startNode)
+    hist = out if THOROUGH else rng.sample([v for v in out if len(v) >= 2], 6)
+    for bs in hist:
+        for sc in range(len(bs)):
+            for sn in range(bs[sc] + 1):
+                if (sc, sn) == (0, 0):
+                    continue  # nothing to load before (0, 0)
+                conf = gen_conf(rng, bs, sc, sn, via="main")
+                STATS["runs_restart_main_db"] += 1
+                B.case(("run", json.dumps(conf, sort_keys=True)), sample=None)
+                run_operator(base_cs, r, conf)
 
 
 # ----------------------------------------------------------------------------------------------- 3. stack rules
